@@ -313,8 +313,36 @@ func c13Mirror(r *core.Run, rd, wr *core.FuncInfo) {
 		return true
 	})
 	r.Sites++
-	okT := strings.Contains(tl, "const:V1HeadLength") && strings.Contains(tl, "encodeHeapMap") && strings.Contains(tl, "builtin:len(")
-	okH := strings.Contains(hl, "const:V1HeadLength") && strings.Contains(hl, "encodeHeapMap") && !strings.Contains(hl, "builtin:len(call:pkg/protocol/codec")
+	// the head-map term: the length the head-map encoder hands back, or a length function of the package over the
+	// same map, verified to add per entry exactly what the encoder writes per entry (two 16-bit prefixes, key, value)
+	hmTerm := "encodeHeapMap"
+	for _, cs := range w.Calls(wr) {
+		g := w.Info(cs.Static)
+		if g == nil || g.Pkg != wr.Pkg || g.Decl.Body == nil || len(cs.Call.Args) != 1 {
+			continue
+		}
+		if !strings.Contains(tl, "call:"+core.ShortKey(g.Obj)+"(") || !headMapLengthFn(g) {
+			continue
+		}
+		// the same map as the one that is encoded
+		arg := origin(wr, cs.Call.Args[0], 3)
+		same := false
+		for _, cs2 := range w.Calls(wr) {
+			if cs2.Static != nil && cs2.Static.Name() == "encodeHeapMap" {
+				for _, a := range cs2.Call.Args {
+					if origin(wr, a, 3) == arg {
+						same = true
+					}
+				}
+			}
+		}
+		if same {
+			hmTerm = "call:" + core.ShortKey(g.Obj) + "("
+			r.Fn(g)
+		}
+	}
+	okT := strings.Contains(tl, "const:V1HeadLength") && strings.Contains(tl, hmTerm) && strings.Contains(tl, "builtin:len(")
+	okH := strings.Contains(hl, "const:V1HeadLength") && strings.Contains(hl, hmTerm) && !strings.Contains(hl, "builtin:len(call:pkg/protocol/codec")
 	r.Check(okT && okH, "C13.mirror", "Write: total = header + head map + body, head = header + head map", w.Pos(wr.Decl.Pos()), "lengths are the sums of the emitted parts", "Write's TotalLength derives from {"+tl+"} and HeadLength from {"+hl+"}: not the sums of the parts it emits")
 	// head map decoder slot isolation
 	dm := w.Func("pkg/remoting/getty", "", "decodeHeapMap")
@@ -519,4 +547,78 @@ func stripConv(info *types.Info, e ast.Expr) ast.Expr {
 		}
 		return e
 	}
+}
+
+// headMapLengthFn: g(data map[string]string) int is `n := 0; for k, v := range data { n += 4 + len(k) + len(v) }; return n`
+// — per entry two 16-bit prefixes plus the bytes of key and value, the terms in any order.
+func headMapLengthFn(g *core.FuncInfo) bool {
+	info := g.Pkg.TypesInfo
+	ps := paramObjs(g)
+	if len(ps) != 1 {
+		return false
+	}
+	var loop *ast.RangeStmt
+	var acc types.Object
+	for _, st := range g.Decl.Body.List {
+		switch x := st.(type) {
+		case *ast.AssignStmt:
+			if len(x.Lhs) == 1 && len(x.Rhs) == 1 {
+				if v := core.ConstVal(info, x.Rhs[0]); v != nil && v.String() == "0" {
+					acc = core.ObjOf(info, x.Lhs[0])
+					continue
+				}
+			}
+			return false
+		case *ast.RangeStmt:
+			if loop != nil || !isObj(info, x.X, ps[0]) {
+				return false
+			}
+			loop = x
+		case *ast.ReturnStmt:
+			if len(x.Results) != 1 || acc == nil || !isObj(info, x.Results[0], acc) {
+				return false
+			}
+		default:
+			return false
+		}
+	}
+	if loop == nil || acc == nil || loop.Key == nil || loop.Value == nil || len(loop.Body.List) != 1 {
+		return false
+	}
+	as, ok := loop.Body.List[0].(*ast.AssignStmt)
+	if !ok || as.Tok != token.ADD_ASSIGN || len(as.Lhs) != 1 || !isObj(info, as.Lhs[0], acc) {
+		return false
+	}
+	k, v := core.ObjOf(info, loop.Key), core.ObjOf(info, loop.Value)
+	konst, nk, nv, okAll := int64(0), 0, 0, true
+	var walk func(e ast.Expr)
+	walk = func(e ast.Expr) {
+		e = ast.Unparen(e)
+		if be, ok := e.(*ast.BinaryExpr); ok && be.Op == token.ADD {
+			walk(be.X)
+			walk(be.Y)
+			return
+		}
+		if c := core.ConstVal(info, e); c != nil {
+			if i, exact := constant.Int64Val(c); exact {
+				konst += i
+				return
+			}
+		}
+		if c, ok := e.(*ast.CallExpr); ok && len(c.Args) == 1 {
+			if id, ok := ast.Unparen(c.Fun).(*ast.Ident); ok && id.Name == "len" {
+				switch core.ObjOf(info, c.Args[0]) {
+				case k:
+					nk++
+					return
+				case v:
+					nv++
+					return
+				}
+			}
+		}
+		okAll = false
+	}
+	walk(as.Rhs[0])
+	return okAll && konst == 4 && nk == 1 && nv == 1
 }
